@@ -8,7 +8,10 @@ package main
 // re-executing itself). Child j first creates j%3 interpreters that run nothing, then
 // evaluates the program <nrun> times, each time in a fresh interpreter. Exec itself never
 // evaluates a program, so one op cannot influence another through the package-level type
-// registry. Every run yields an *outcome* = printed value + captured stdout + error text;
+// registry. Every run yields an *outcome* = printed value + captured stdout + error text +
+// (line `S:`) the names first interned by this evaluation in symbol-NUMBER order, i.e. what
+// `(symnum (str2sym "<name>"))` appended to the program would answer for each of them — a
+// difference there is a difference a script can see (symnum, `<` on symbols, gensym names);
 // addresses (0x…) are masked because pointer printing is outside the property. Answer:
 //   det                                     all nproc*nrun outcomes are equal
 //   nondet <where> <outcomeA> <outcomeB>    two runs differ (outcomes as dot-separated
@@ -22,6 +25,7 @@ package main
 
 import (
 	"bytes"
+	"encoding/base64"
 	"fmt"
 	"io"
 	"os"
@@ -114,7 +118,7 @@ func detRunOnce(prog string) (outcome string, class string) {
 	defer os.Remove(tmp.Name())
 	saved := os.Stdout
 	os.Stdout = tmp
-	val, errText := "", ""
+	val, errText, syms := "", "", ""
 	done := make(chan struct{})
 	go func() {
 		defer close(done)
@@ -125,6 +129,19 @@ func detRunOnce(prog string) (outcome string, class string) {
 		}()
 		env := detFreshEnv()
 		defer env.Close()
+		base := zygo.VerifSymCounter(env)
+		// what `symnum` would answer for every name first interned by this evaluation
+		// (by the parser, in source order, or at run time by a decoder / str2sym / gensym):
+		// the names in NUMBER order
+		defer func() {
+			var sb strings.Builder
+			for _, e := range zygo.VerifSymTable(env) {
+				if e.Num >= base {
+					sb.WriteString(" " + e.Name)
+				}
+			}
+			syms = sb.String()
+		}()
 		res, err := env.EvalString(prog + "\n")
 		if err != nil {
 			errText = err.Error()
@@ -149,13 +166,14 @@ func detRunOnce(prog string) (outcome string, class string) {
 		class = "err"
 	}
 	s := "V:" + val + "\nO:" + string(out) + "\nE:" + errText
+	symTail := "\nS:" + syms
 	// a recovered Go panic appends a Go stack trace to the error text (frame arguments,
 	// goroutine ids, code offsets): pointer printing; the text up to the trace is compared
 	if k := strings.Index(s, "\n stack trace:"); k >= 0 {
 		s = s[:k] + "\n stack trace: <elided>"
 	}
 	s = ptrRe.ReplaceAllString(s, "0xPTR")
-	return gorRe.ReplaceAllString(s, "@"), class
+	return gorRe.ReplaceAllString(s, "@") + symTail, class
 }
 
 func bytesToCodes(b []byte) string {
@@ -318,7 +336,7 @@ func detExec(toks []string) string {
 	if lf := os.Getenv("ZYH_DET_LOG"); lf != "" {
 		if f, err := os.OpenFile(lf, os.O_APPEND|os.O_CREATE|os.O_WRONLY, 0o644); err == nil {
 			cls := "val"
-			if !strings.HasSuffix(first, "\nE:") {
+			if !strings.Contains(first, "\nE:\nS:") {
 				cls = "err"
 			}
 			fmt.Fprintf(f, "%s %d\n", cls, nproc*nrun)
@@ -429,9 +447,9 @@ func detGenerated(g *Gen, n int) [][2]string {
 		{"typelist", `(str (typelist))`},
 		{"struct-decl", `(struct Car [(field Wheels: int64) (field Name: string)]) (def c (Car Wheels:4 Name:"b")) (str c)`},
 		{"struct-decl", `(struct Pt [(field X: int64) (field Y: int64)]) (def p (Pt X:1 Y:2)) (json p)`},
-		{"package-dump", `(package pk { A := 1; b := 2; Cc := "s"; d := [1 2 3] }) (str pk)`},
-		{"package-dump", `(package pk1 { A := 1 }) (package pk2 { B := pk1.A; C := 4 }) (printf "%v\n" (str pk2)) (str pk1)`},
-		{"package-dump", `(def h (hash a:1)) (package pq { X := h; Y := h; Z := (fn [q] (+ q 1)) }) (str pq)`},
+		{"package-dump", `(def pk (package "pk" { A := 1; b := 2; Cc := "s"; d := [1 2 3] })) (str pk)`},
+		{"package-dump", `(def pk1 (package "pk1" { A := 1 })) (def pk2 (package "pk2" { B := pk1.A; C := 4 })) (printf "%v\n" (str pk2)) (str pk1)`},
+		{"package-dump", `(def h (hash a:1)) (def pq (package "pq" { X := h; Y := h; Z := (fn [q] (+ q 1)) })) (str pq)`},
 		{"fn-print", `(defn f [a b] (+ a b)) (str f)`},
 		{"hash-of-builtin-keys", `(def h (hash car:1 cdr:2 cons:3)) (str h)`},
 		{"sort-symbols", `(sort (fn [a b] (< a b)) (quote (zeta car alpha cdr mid)))`},
@@ -464,8 +482,159 @@ func detGenerated(g *Gen, n int) [][2]string {
 				detPick(g, []string{"t", "tag", ""}), detPick(g, []string{"vinner", "VInner"}), g.Rng.Intn(100), detPick(g, []string{"a", "bb"})))
 		case 8:
 			ks := detKeys(g, 4)
-			add("package-dump", fmt.Sprintf(`(package pz { %s := %d; %s := %d; %s := "v"; %s := [1 2] }) (str pz)`,
+			add("package-dump", fmt.Sprintf(`(def pz (package "pz" { %s := %d; %s := %d; %s := "v"; %s := [1 2] })) (str pz)`,
 				strings.ToUpper(ks[0][:1])+ks[0][1:], g.Rng.Intn(50), ks[1], g.Rng.Intn(50), ks[2], ks[3]))
+		}
+	}
+	return out
+}
+
+// ---- programs whose data reach the interpreter through a decoder (names first seen at run time)
+
+// detFreshNames: names that no program text mentions as a symbol, so the decoder (not the
+// parser) is the first to intern them.
+func detFreshNames(g *Gen, n int) []string {
+	pool := []string{"zqalpha", "zqbravo", "zqcharlie", "zqdelta", "zqecho", "zqfoxtrot", "zqgolf", "zqhotel", "zqindia", "zqjuliet",
+		"Zqkilo", "zqLima", "zq_mike", "zq9", "zqoscar", "zqpapa", "yankee7", "xray_1", "Wq", "vq"}
+	g.Rng.Shuffle(len(pool), func(i, j int) { pool[i], pool[j] = pool[j], pool[i] })
+	return pool[:n]
+}
+
+// detJSONDoc renders a JSON object with fresh member names. withOrder adds the Atype /
+// zKeyOrder members that (json …) writes (the decoder then restores the key order from the
+// list); without them the document looks like foreign JSON.
+func detJSONDoc(g *Gen, depth int, withOrder bool) string {
+	n := 2 + g.Rng.Intn(7)
+	names := detFreshNames(g, n)
+	var parts, quoted []string
+	if withOrder {
+		parts = append(parts, `"Atype":"hash"`)
+	}
+	for i, k := range names {
+		v := strconv.Itoa(i + 1)
+		switch {
+		case depth > 0 && g.Rng.Intn(4) == 0:
+			v = detJSONDoc(g, depth-1, g.Rng.Intn(2) == 0)
+		case g.Rng.Intn(5) == 0:
+			v = `"s` + strconv.Itoa(i) + `"`
+		case g.Rng.Intn(6) == 0:
+			v = `[1, {"` + k + `in":2, "` + k + `ib":3}]`
+		}
+		parts = append(parts, `"`+k+`":`+v)
+		quoted = append(quoted, `"`+k+`"`)
+	}
+	if withOrder {
+		// the key order as written by a hash whose keys were inserted in this (shuffled) order
+		g.Rng.Shuffle(len(quoted), func(i, j int) { quoted[i], quoted[j] = quoted[j], quoted[i] })
+		parts = append(parts, `"zKeyOrder":[`+strings.Join(quoted, ", ")+`]`)
+	}
+	g.Rng.Shuffle(len(parts), func(i, j int) { parts[i], parts[j] = parts[j], parts[i] })
+	return "{" + strings.Join(parts, ", ") + "}"
+}
+
+// detMsgpackDoc hand-encodes a msgpack map (fixmap / map16 of fixstr → small ints) with
+// fresh member names, optionally with Atype / zKeyOrder, and returns it base64-encoded.
+func detMsgpackDoc(g *Gen, withOrder bool) string {
+	names := detFreshNames(g, 2+g.Rng.Intn(7))
+	var b []byte
+	str := func(s string) {
+		b = append(b, 0xa0|byte(len(s)))
+		b = append(b, s...)
+	}
+	n := len(names)
+	if withOrder {
+		n += 2
+	}
+	if n < 16 {
+		b = append(b, 0x80|byte(n))
+	} else {
+		b = append(b, 0xde, 0, byte(n))
+	}
+	if withOrder {
+		str("zKeyOrder")
+		b = append(b, 0x90|byte(len(names)))
+		perm := g.Rng.Perm(len(names))
+		for _, i := range perm {
+			str(names[i])
+		}
+	}
+	for i, k := range names {
+		str(k)
+		b = append(b, byte(i+1))
+	}
+	if withOrder {
+		str("Atype")
+		str("hash")
+	}
+	return base64.URLEncoding.EncodeToString(b)
+}
+
+func detZyString(s string) string {
+	return `"` + strings.ReplaceAll(strings.ReplaceAll(s, `\`, `\\`), `"`, `\"`) + `"`
+}
+
+// detObserveDecoded: what a script can find out about a decoded hash h — the printed form,
+// key iteration, and everything that exposes symbol NUMBERS of its keys.
+func detObserveDecoded(g *Gen) string {
+	obs := []string{
+		`(map (fn [s] (symnum s)) (keys h))`,
+		`(let [k (keys h)] (list (< (aget k 0) (aget k 1)) (> (aget k 0) (aget k 1)) (== (aget k 0) (aget k 1))))`,
+		`(map (fn [a] (map (fn [b] (< a b)) (keys h))) (keys h))`,
+		`(begin (range k v h (printf "%v=%v;" k v)) (keys h))`,
+		`(list (str h) (len h) (hpair h 0))`,
+		`(list (gensym) (symnum (str2sym "zqlate")))`,
+		`(raw2str (json h))`,
+		`(let [h2 (hash)] (range k v h (hset h2 k (symnum k))) (str h2))`,
+	}
+	k := 2 + g.Rng.Intn(3)
+	g.Rng.Shuffle(len(obs), func(i, j int) { obs[i], obs[j] = obs[j], obs[i] })
+	p := "(list " + strings.Join(obs[:k], " ") + ")"
+	if g.Rng.Intn(5) == 0 {
+		// an error text after the observations were printed
+		p = "(println " + p + `) (hget h (str2sym "nosuchkey"))`
+	}
+	return p
+}
+
+// detDecodePrograms: kind, program.
+func detDecodePrograms(g *Gen, n int) [][2]string {
+	var out [][2]string
+	// names that exist only as STRING keys / values until a codec walks the hash
+	strHash := func() string {
+		var sb strings.Builder
+		sb.WriteString("(hash")
+		for i, k := range detFreshNames(g, 2+g.Rng.Intn(6)) {
+			v := strconv.Itoa(i + 1)
+			if g.Rng.Intn(4) == 0 {
+				v = `(hash "` + k + `in" 1 "` + k + `ib" "s")`
+			}
+			sb.WriteString(` "` + k + `" ` + v)
+		}
+		sb.WriteString(")")
+		return sb.String()
+	}
+	for i := 0; i < n/3; i++ {
+		switch g.Rng.Intn(4) {
+		case 0:
+			out = append(out, [2]string{"string-keys-json-roundtrip", "(def h0 " + strHash() + ") (def h (unjson (json h0))) " + detObserveDecoded(g)})
+		case 1:
+			out = append(out, [2]string{"string-keys-msgpack-roundtrip", "(def h0 " + strHash() + ") (def h (unmsgpack (msgpack h0))) " + detObserveDecoded(g)})
+		case 2:
+			out = append(out, [2]string{"string-keys-encode-only", "(def h0 " + strHash() + ") (list (raw2str (json h0)) (base64 (msgpack h0)) (str h0))"})
+		case 3:
+			out = append(out, [2]string{"string-keys-to-symbols", "(def h0 " + strHash() + ") (def h (hash)) (range k v h0 (hset h (str2sym k) v)) " + detObserveDecoded(g)})
+		}
+	}
+	for i := 0; i < n; i++ {
+		switch g.Rng.Intn(4) {
+		case 0:
+			out = append(out, [2]string{"decode-json-own", "(def h (unjson (raw " + detZyString(detJSONDoc(g, 1, true)) + "))) " + detObserveDecoded(g)})
+		case 1:
+			out = append(out, [2]string{"decode-json-foreign", "(def h (unjson (raw " + detZyString(detJSONDoc(g, 1, false)) + "))) " + detObserveDecoded(g)})
+		case 2:
+			out = append(out, [2]string{"decode-msgpack-own", `(def h (unmsgpack (unbase64 "` + detMsgpackDoc(g, true) + `"))) ` + detObserveDecoded(g)})
+		case 3:
+			out = append(out, [2]string{"decode-msgpack-foreign", `(def h (unmsgpack (unbase64 "` + detMsgpackDoc(g, false) + `"))) ` + detObserveDecoded(g)})
 		}
 	}
 	return out
@@ -491,6 +660,24 @@ func detGen(g *Gen) {
 	}
 	for _, kp := range detGenerated(g, ngen) {
 		emit(kp[0], kp[1], nproc, nrun)
+	}
+	// 2..8 names that only the decoder sees: 12 runs (3 processes x 4 interpreters) leave an
+	// order-dependent numbering of even two names a chance of 2^-11 to go unnoticed
+	dproc, drun := 3, 4
+	if g.Thorough() {
+		dproc, drun = 10, 5
+	}
+	for _, kp := range detDecodePrograms(g, ngen) {
+		emit(kp[0], kp[1], dproc, drun)
+	}
+	// observe first, change a setting afterwards: the second interpreter of a process must
+	// start like the first did (the settings are drawn from every builtin: see ch_interf.go)
+	calls := interfSettingCalls()
+	for i := 0; i < ngen/3 && len(calls) > 0; i++ {
+		c := calls[g.Rng.Intn(len(calls))]
+		obs := interfGeneralBattery()[g.Rng.Intn(len(interfGeneralBattery()))]
+		// a setting that leaks shows in the second interpreter of the first process already
+		emit("observe-then-call", "(def zzobs (begin "+obs+")) "+c+" zzobs", 2, 3)
 	}
 }
 
